@@ -6,6 +6,7 @@ Index.nearest checks every answer against that shadow model and the grid geometr
 object itself publishes."""
 import functools
 import math
+from fractions import Fraction
 
 from .. import contracts
 
@@ -19,7 +20,9 @@ RULE = ("seeded histories: build an index (1..300 paths; lattice / continuous / 
         "query); non-trivial when >= 2 paths are live")
 ASSUMPTIONS = ["paths have non-zero overall extent (the statement's domain); coordinates finite",
                "grid geometry (xmin, ymin, bin sizes, bins per side) is read from the object at run "
-               "time; ends within 1e-9 of a cell border are not used by the neighbourhood clause",
+               "time; ends within 1e-9 of a cell border are not used by the neighbourhood clause; ends EXACTLY on "
+               "an interior border must be treated by one consistent convention (border k belongs to cell k, or "
+               "to cell k-1): a violation is reported only when both conventions are refuted by real answers",
                "distance comparisons allow a relative slack of 1e-12 (float squared distances)"]
 REL = 1e-12
 
@@ -53,6 +56,60 @@ class Monitor:
     def __init__(self, ctx):
         self.ctx = ctx
         self.shadows = {}
+        # ends lying EXACTLY on an interior cell border belong to one of the two cells; which one
+        # is the implementation's choice, but it has to be one consistent convention:
+        # "L" border k belongs to cell k (floor), "U" to cell k-1.  Each list collects the
+        # witnesses that refute that convention; a violation needs both refuted.
+        self.refuted = {"L": [], "U": []}
+
+    @staticmethod
+    def exact_border(coord, origin, size, bins):
+        """k if coord lies exactly (also in float arithmetic) on interior border k, else None."""
+        if not (math.isfinite(coord) and size > 0):
+            return None
+        diff = coord - origin
+        t_float = diff / size
+        if t_float != math.floor(t_float) or not 1 <= t_float <= bins - 1:
+            return None                 # cheap float pre-check; exactness is confirmed below
+        if Fraction(diff) != Fraction(coord) - Fraction(origin):
+            return None
+        t = Fraction(diff) / Fraction(size)
+        if t.denominator != 1 or not 1 <= t <= bins - 1:
+            return None
+        return int(t) if diff / size == int(t) else None
+
+    def border_ends(self, witness, q, qx, qy, ends, geo, d_got, slack):
+        """Evaluate both border conventions for ends lying exactly on a border."""
+        xmin, ymin, bx, by, bins = geo
+        ctx = self.ctx
+        for ident, p in ends:
+            kx = self.exact_border(p[0], xmin, bx, bins)
+            ky = self.exact_border(p[1], ymin, by, bins)
+            if kx is None and ky is None:
+                continue
+            cx, cx_ok = self.cell(p[0], xmin, bx, bins, True)
+            cy, cy_ok = self.cell(p[1], ymin, by, bins, True)
+            if (kx is None and not cx_ok) or (ky is None and not cy_ok):
+                continue
+            d_end = sqd(q, p)
+            for hyp in ("L", "U"):
+                ex = cx if kx is None else (kx if hyp == "L" else kx - 1)
+                ey = cy if ky is None else (ky if hyp == "L" else ky - 1)
+                if abs(ex - qx) <= 1 and abs(ey - qy) <= 1:
+                    ctx.count("monitor:border end in the neighbourhood under convention " + hyp)
+                    if d_got > d_end + slack and len(self.refuted[hyp]) < 6:
+                        self.refuted[hyp].append(dict(witness, border_end=ident, border=[kx, ky],
+                                                      d2_got=d_got, d2_border_end=d_end))
+
+    def border_verdict(self):
+        ctx = self.ctx
+        n_l, n_u = len(self.refuted["L"]), len(self.refuted["U"])
+        ctx.extra["border_convention_refutations"] = [{"lower-inclusive (floor)": n_l, "upper-inclusive": n_u}]
+        if n_l >= 2 and n_u >= 2:
+            ctx.violation("ends exactly on a cell border are ignored under either border convention "
+                          "(cells are not assigned consistently)",
+                          {"fn": "border", "cases": [self.refuted["L"][0], self.refuted["U"][0]],
+                           "refutations": {"L": n_l, "U": n_u}})
 
     def geometry(self, index):
         try:
@@ -146,6 +203,7 @@ class Monitor:
                 if near:
                     maybe_in += 1
         ctx.count("monitor:neighbourhood clause applicable")
+        self.border_ends(witness, q, qx, qy, ends, geo, d_got, slack)
         if certainly_in:
             d_block = min(sqd(q, p) for _, p in certainly_in)
             if d_got > d_block + slack:
@@ -345,9 +403,87 @@ def one_history(ctx, cls, verts, bins, reverse, mode):
         ask(label, q)
 
 
+def border_history(ctx, mon, rng):
+    """Ends placed exactly on interior cell borders (the geometry is read from a first index built
+    from the same extent), a decoy end farther away, and queries 1.5 cells on either side."""
+    from plotink import spatial_grid
+    bins = rng.choice((4, 5, 6, 7, 8))
+    size = rng.choice((100.0, 64.0, 10.0, 300.0, float(rng.randint(20, 500))))
+    reverse = rng.random() < 0.5
+    corners = [[[0.0, 0.0], [size, size]], [[size, size], [0.0, 0.0]]]
+    try:
+        probe = spatial_grid.Index(corners, bins, reverse)
+    except Exception:
+        return
+    geo = mon.geometry(probe)
+    mon.shadows.clear()
+    if geo is None:
+        ctx.count("skipped:grid geometry not published (border workload)")
+        return
+    xmin, ymin, bx, by, _ = geo
+    axis = rng.randrange(2)
+    k = rng.randrange(1, bins)
+    side = rng.choice(("query above the border", "query below the border"))
+    qcell = k + 1 if side == "query above the border" else k - 2
+    row = rng.randrange(0, bins - 1)
+    if not 0 <= qcell <= bins - 1:
+        return
+    o_a, s_a = (xmin, bx) if axis == 0 else (ymin, by)
+    o_b, s_b = (ymin, by) if axis == 0 else (xmin, bx)
+    border = o_a + k * s_a
+    qa, qb = o_a + (qcell + 0.5) * s_a, o_b + (row + 0.5) * s_b
+    decoy_a, decoy_b = qa + 0.45 * s_a * (1 if side == "query above the border" else -1), qb + 1.45 * s_b
+
+    def pt(a, b):
+        return [a, b] if axis == 0 else [b, a]
+    inside = lambda v: 0.0 <= v <= size     # noqa: E731
+    if not all(inside(v) for v in (border, qa, qb, decoy_a, decoy_b)):
+        return
+    far = pt(0.0, size)                         # where the other end of each extra path lives
+    verts = corners + [[pt(border, qb), far], [pt(decoy_a, decoy_b), far]]
+    # a few more exact-border ends elsewhere, and ordinary ends
+    for _ in range(rng.randint(0, 3)):
+        kk = rng.randrange(1, bins)
+        verts.append([pt(o_a + kk * s_a, rng.uniform(0, size)), far])
+    if reverse:
+        verts = [[v[0], v[0]] if i >= 2 else v for i, v in enumerate(verts)]
+    try:
+        index = spatial_grid.Index(verts, bins, reverse)
+    except Exception as exc:
+        ctx.violation("exception in construction", {"fn": "Index", "vertices": verts, "bins": bins,
+                                                    "reverse": reverse, "exception": repr(exc)})
+        return
+    if mon.geometry(index) != geo:
+        ctx.count("skipped:geometry changed after adding border ends")
+        mon.shadows.clear()
+        return
+    if mon.exact_border(border, o_a, s_a, bins) != k:
+        ctx.count("skipped:border coordinate not exact in floating point")
+        mon.shadows.clear()
+        return
+    q = pt(qa, qb)
+    if sqd(q, pt(decoy_a, decoy_b)) <= sqd(q, pt(border, qb)):
+        mon.shadows.clear()
+        return
+    ctx.case(["end exactly on a cell border", side, "border on axis %d" % axis, "bins=%d" % bins,
+              "border number odd" if k % 2 else "border number even"],
+             ("border", bins, size, reverse, axis, k, side, row))
+    try:
+        index.nearest(q)
+        if rng.random() < 0.5:                  # the same after removing the decoy: global fallback
+            index.remove_path(3)
+            index.nearest(q)
+    except Exception as exc:
+        ctx.violation("exception in nearest", {"fn": "nearest", "vertices": verts, "bins": bins, "reverse": reverse,
+                                               "removed": [], "query": q, "exception": repr(exc)})
+    mon.shadows.clear()
+
+
 def run(ctx):
     mon = install(ctx)
     rng = ctx.rng
+    for _ in range(ctx.budget(3_000, 40_000)):
+        border_history(ctx, mon, rng)
     n = ctx.budget(1_500, 25_000)
     for i in range(n):
         if not ctx.alive():
@@ -369,6 +505,12 @@ def run(ctx):
                 "query at the origin", "tour step", "after the last removal", "live=0", "live=1", "live=>=2",
                 "answer:None (no path left)"):
         ctx.need(cls, 100)
+    mon.border_verdict()
+    for cls in ("end exactly on a cell border", "query above the border", "query below the border",
+                "border number odd", "border number even", "border on axis 0", "border on axis 1"):
+        ctx.need(cls, 100)
+    ctx.need("monitor:border end in the neighbourhood under convention L", 300)
+    ctx.need("monitor:border end in the neighbourhood under convention U", 300)
     ctx.need("monitor:nearest evaluated", 20_000)
     ctx.need("monitor:strong clause applicable", 2_000)
     ctx.need("monitor:neighbourhood clause applicable", 5_000)
@@ -383,6 +525,16 @@ def replay(ctx, rec):
     from plotink import spatial_grid
     w = rec["witness"]
     ctx.case(["replay"], None)
+    if w.get("fn") == "border":
+        for case in w["cases"]:
+            index = spatial_grid.Index([[list(a), list(b)] for a, b in case["vertices"]], case["bins"], case["reverse"])
+            for path in case.get("removed", []):
+                index.remove_path(path)
+            index.nearest(case["query"])
+            index.nearest(case["query"])        # two refutations per convention are required
+        mon.border_verdict()
+        contracts.uninstall_all()
+        return
     index = spatial_grid.Index([[list(a), list(b)] for a, b in w["vertices"]], w["bins"], w["reverse"])
     for path in w.get("removed", []):
         index.remove_path(path)
